@@ -252,6 +252,8 @@ def r05_9(ctx):
 
 
 def run(ctx):
+    ctx.rule("R05.10", "add_attrs_if_missing only for the html element or the element body_elem() established to be the body")
+    ctx.guard("R05.10", "add-attrs-target", lambda: r05_10(ctx))
     ctx.rule("R05.9", "script marking only for script elements; the XML root's arms leave the Start phase")
     ctx.guard("R05.9", "kinds", lambda: r05_9(ctx))
     ctx.rule("R05.8", "associate_with_form is called only for HTML-namespace form-associated elements, with the form pointer set")
@@ -270,3 +272,26 @@ def run(ctx):
     ctx.guard("R05.7", "nf-html", lambda: nf_common.nf_rule(ctx, "R05.7", "html_tree_builder", floor=100))
     ctx.guard("R05.7", "nf-xml", lambda: nf_common.nf_rule(ctx, "R05.7", "xml_tree_builder", floor=45))
     ctx.guard("R05.7", "nf-iface", lambda: nf_common.nf_rule(ctx, "R05.7", "markup5ever_interface", only=("tree_builder",)))
+
+
+def r05_10(ctx):
+    """add_attrs_if_missing is called only for the root html element (the first node of the stack, `html_elem`) or for the node
+    that `body_elem()` established to be the body element (second node AND an HTML body) - never for 'whatever is second on
+    the stack' (in a fragment that is an arbitrary element)"""
+    cur = nf_common.area_current(ctx, "html_tree_builder")
+    n = 0
+    bad = None
+    for key, ent in cur.items():
+        if ent.get("kind") != "paths":
+            continue
+        for pc in ent["cells"]:
+            for a, args in pc["actions"]:
+                if not str(a).endswith("sink.add_attrs_if_missing"):
+                    continue
+                n += 1
+                tgt = str(args[0]) if args else ""
+                ok = tgt.startswith("html_elem(self.open_elems)") or tgt.startswith("self.html_elem()") or ("self.body_elem()" in tgt and any(
+                    v is True and "self.body_elem()" in k and "matches Some(_)" in k for k, v in pc["guards"].items()))
+                if not ok:
+                    bad = bad or "%s: add_attrs_if_missing(%s, ..) - the target is not the html element nor the element body_elem() found to be the body" % (key.split("::")[-1], tgt[:70])
+    ctx.ob("R05.10", "add-attrs-only-to-html-or-body", bad is None and n >= 2, bad or "%d call paths, targets: the html element / the established body element" % n, "html5ever tree_builder")
